@@ -259,7 +259,10 @@ package server
 //@   && modifyReason(sent(errCh)[old(len(sent(errCh)))]) == spb.ModifyRPCErrorDetails_UNSUPPORTED_PARAMS
 //@ ensures[one-answer-per-op] cid in dom(s.cs) && supportedSession(s.cs[cid]) ==>
 //@   len(sent(resCh)) + len(sent(errCh)) == old(len(sent(resCh))) + old(len(sent(errCh))) + len(ops)
+//@ ensures[rib-ready] ribReady(s.masterRIB)
+//@ ensures[monotone] len(sent(errCh)) >= old(len(sent(errCh))) && len(sent(resCh)) >= old(len(sent(resCh)))
 //@ loop 1 at "range ops" invariant len(sent(resCh)) + len(sent(errCh)) == old(len(sent(resCh))) + old(len(sent(errCh))) + loopi
+//@ loop 1 invariant len(sent(errCh)) >= old(len(sent(errCh))) && len(sent(resCh)) >= old(len(sent(resCh)))
 //@ loop 1 invariant ribReady(s.masterRIB) && s.masterRIB != nil && supportedSession(cs) && elec != nil
 //@ assigns sent(resCh), sent(errCh), ribState, spawned, hookCount
 //@ props C06 C04 C09 C12:safety
@@ -300,6 +303,42 @@ package server
 //@ ensures[wf] csWF(s)
 //@ assigns contents(s.cs), spawned
 //@ props C09 C11:lock
+
+// ---- the receive loop of Modify (C09) ----
+// multiField: the request populates more than one of parameters / election id / operations.
+//@ pred multiField(m *spb.ModifyRequest) = m != nil && ((m.Params != nil && m.ElectionId != nil) || (m.Params != nil && len(m.Operation) != 0) || (m.ElectionId != nil && len(m.Operation) != 0))
+//@ ghostvar nRecv Int
+//@ ghostvar lastMulti Bool
+//@ ghostvar resAtRecv Int
+//@ ghostvar ribAtRecv Int
+//@ ghostvar elecAtRecv Int
+//@ ghostvar masterAtRecv Str
+// Each message is classified before anything is done with it: a message populating more than one
+// field is never handed to the parameter, election or operation handlers, it ends the RPC with
+// INVALID_ARGUMENT and nothing was emitted or changed for it; session parameters are accepted
+// (updateParams is reached) only for the first message of the stream; no other session's state is
+// assigned whatever happens.
+//@ unit Server.Modify$1
+//@ requires csWF(s) && s.masterRIB != nil && ribReady(s.masterRIB) && nRecv == 0 && !lastMulti && tagof(ms) != 0
+//@ at "received message %s on Modify channel" ghost nRecv = nRecv + 1
+//@ at "received message %s on Modify channel" ghost lastMulti = multiField(in)
+//@ at "received message %s on Modify channel" ghost resAtRecv = len(sent(resultChan))
+//@ at "received message %s on Modify channel" ghost ribAtRecv = ribState
+//@ at "received message %s on Modify channel" ghost elecAtRecv = s.curElecID
+//@ at "received message %s on Modify channel" ghost masterAtRecv = s.curMaster
+//@ assert at "if res, err = s.checkParams(" [params-single-field] !multiField(in)
+//@ assert at "if err := s.updateParams(" [params-only-first] nRecv == 1 && !multiField(in)
+//@ assert at "res, err = s.runElection(" [election-single-field] !multiField(in)
+//@ assert at "s.doModify(cid, in.Operation" [operations-single-field] !multiField(in)
+//@ assert at "unimplemented handling of message" [empty-message] !multiField(in)
+//@ loop 1 invariant csWF(s) && s.masterRIB != nil && ribReady(s.masterRIB) && (gotmsg <==> nRecv > 0) && nRecv >= 0 && !lastMulti && len(sent(errCh)) >= old(len(sent(errCh)))
+//@ loop 1 invariant forall k in old(dom(s.cs)) :: k != cid ==> k in dom(s.cs) && s.cs[k] == old(s.cs[k])
+//@ ensures[multi-field-rejected] lastMulti ==> len(sent(errCh)) > 0 && errCode(sent(errCh)[len(sent(errCh)) - 1]) == codes.InvalidArgument
+//@ ensures[multi-field-no-effect] lastMulti ==> len(sent(resultChan)) == resAtRecv && ribState == ribAtRecv && s.curElecID == elecAtRecv && s.curMaster == masterAtRecv
+//@ ensures[ends-with-verdict] len(sent(errCh)) > old(len(sent(errCh)))
+//@ ensures[other-sessions-untouched] forall k in old(dom(s.cs)) :: k != cid ==> k in dom(s.cs) && s.cs[k] == old(s.cs[k])
+//@ assigns sent(errCh), sent(resultChan), ribState, hookCount, spawned, s.curElecID, s.curMaster, s.cs[cid].params, s.cs[cid].setParams, s.cs[cid].lastElecID, nRecv, lastMulti, resAtRecv, ribAtRecv, elecAtRecv, masterAtRecv
+//@ props C09 C12:safety C11:lock
 
 // ---- BEGIN Get (C07), generated by /verif/tools/gen_get_contracts.py ----
 //@ ghostvar gotNI StrSet
